@@ -816,7 +816,7 @@ impl Check for C14 {
     fn cases(&self, tier: Tier) -> u64 {
         match tier {
             Tier::Quick => 8_000,
-            Tier::Thorough => 1_000_000,
+            Tier::Thorough => 400_000,
         }
     }
     fn workers(&self, _tier: Tier) -> usize {
